@@ -21,6 +21,7 @@ type Expr struct {
 }
 
 type LoopSpec struct {
+	Lets       []LetSpec
 	Invariants []*Expr
 	Decreases  *Expr
 	Unroll     int
@@ -51,6 +52,7 @@ type Contract struct {
 	Modifies   []*Expr
 	ModAll     bool
 	PanicsIff  *Expr
+	Decreases  *Expr
 	MayPanic   bool
 	Loops      map[int]*LoopSpec
 	Asserts    []AssertSpec
@@ -262,6 +264,12 @@ func (db *ContractDB) LoadContractFile(path, pkgPath string) error {
 				}
 				cur.Modifies = append(cur.Modifies, e)
 			}
+		case "decreases":
+			e, err := pe(rest)
+			if err != nil {
+				return err
+			}
+			cur.Decreases = e
 		case "nopanic":
 			// default
 		case "maypanic":
@@ -301,6 +309,16 @@ func (db *ContractDB) LoadContractFile(path, pkgPath string) error {
 					return err
 				}
 				ls.Decreases = e
+			case "let":
+				name, r, ok := strings.Cut(r3, ":=")
+				if !ok {
+					return fail("loop N let name := expr")
+				}
+				e, err := pe(r)
+				if err != nil {
+					return err
+				}
+				ls.Lets = append(ls.Lets, LetSpec{strings.TrimSpace(name), e})
 			case "unroll":
 				k, err := strconv.Atoi(strings.TrimSpace(r3))
 				if err != nil {
@@ -481,7 +499,18 @@ func (db *ContractDB) LoadContractFile(path, pkgPath string) error {
 		case "specfn":
 			// specfn name(Sort, Sort) Sort
 			k := strings.Index(rest, "(")
-			k2 := strings.LastIndex(rest, ")")
+			k2 := -1
+			for i, d := k, 0; k >= 0 && i < len(rest); i++ {
+				if rest[i] == '(' {
+					d++
+				} else if rest[i] == ')' {
+					d--
+					if d == 0 {
+						k2 = i
+						break
+					}
+				}
+			}
 			if k < 0 || k2 < k {
 				return fail("specfn name(sorts) sort")
 			}
